@@ -67,6 +67,7 @@ class Ctx:
         self.stages = {}
         self.notes = {}
         self._sample_seen = 0
+        self._last_violation = None
         from vlib import findings
         self._findings = findings
 
@@ -108,7 +109,8 @@ class Ctx:
             else:
                 left.append(v)
         if left:
-            raise Violation(case, left)
+            self._last_violation = Violation(case, left)
+            raise self._last_violation
 
     def count(self, n=1, nontrivial=0, labels=()):
         """Bulk accounting for exhaustive loops whose cases are distinct by construction."""
@@ -147,6 +149,18 @@ class Ctx:
         except Violation as v:
             ok = False
             self.record_violation(stage, v)
+        except hypothesis.errors.Flaky:
+            # the case failed once and passed when Hypothesis replayed it: the outcome is not a function of the case.
+            # The violating case is saved all the same (a result that changes between two executions of one input is
+            # itself an irreproducibility); the replay decides whether it persists.
+            ok = False
+            lv = getattr(self, "_last_violation", None)
+            if lv is not None:
+                for x in lv.violations:
+                    x["detail"] = "[flaky: passed on Hypothesis's own replay] " + str(x.get("detail"))
+                self.record_violation(stage, lv)
+            else:
+                self.errors.append("stage %s: flaky failure without a recorded violation" % stage)
         except (hypothesis.errors.FailedHealthCheck, hypothesis.errors.Unsatisfiable) as e:
             self.errors.append("stage %s: generator health check: %r" % (stage, e))
         except Exception:
